@@ -84,10 +84,10 @@ type c06State struct {
 	parts   []int
 }
 
-func sp(s string) *string { return &s }
+func c06Str(s string) *string { return &s }
 
 func runC06(args []string) {
-	f := verifx.ParseFlags("c06", args, 700, 4000)
+	f := verifx.ParseFlags("c06", args, 500, 2500)
 	out := verifx.NewOut()
 	env := newC06Env(f.Scratch)
 	defer env.close()
@@ -410,22 +410,22 @@ func (s *c06State) page(id, i int, trunc bool, nk *string, ns int, k []string, d
 	if trunc {
 		t = 1
 	}
-	line := fmt.Sprintf("p %d %d %d %s %s K%s", id, i, t, c06Opt(nk), c06OptInt(ns), strJoin(k))
+	line := fmt.Sprintf("p %d %d %d %s %s K%s", id, i, t, c06Opt(nk), c06OptInt(ns), c06Join(k))
 	if hasD {
-		line += " D" + strJoin(d)
+		line += " D" + c06Join(d)
 	}
 	line += " C" + c06HexList(c)
 	s.out.Line("%s", line)
 }
 
-func strJoin(xs []string) string {
+func c06Join(xs []string) string {
 	if len(xs) == 0 {
 		return ""
 	}
 	return " " + strings.Join(xs, " ")
 }
 
-func hexAll(xs []string) []string {
+func c06HexAll(xs []string) []string {
 	o := make([]string, len(xs))
 	for i, x := range xs {
 		o[i] = verifx.HexS(x)
@@ -450,7 +450,7 @@ func (s *c06State) uItem(key, id string) string {
 }
 
 // subOf maps an id returned as a marker to its sub (-1 = absent).
-func subOfPtr(m map[string]int, id *string) int {
+func c06SubOfPtr(m map[string]int, id *string) int {
 	if id == nil {
 		return -1
 	}
@@ -460,7 +460,7 @@ func subOfPtr(m map[string]int, id *string) int {
 	return 999999
 }
 
-func optStr(s string) *string {
+func c06OptStr(s string) *string {
 	if s == "" {
 		return nil
 	}
@@ -473,7 +473,7 @@ func (s *c06State) runQuery(id int, q c06Query, pb storage.BucketName) string {
 	max32 := int32(q.max)
 	switch q.op {
 	case "so":
-		r, err := st.ListObjects(ctx, s.ob, storage.ListObjectsOptions{Prefix: sp(q.pfx), Delimiter: optStr(q.delim), StartAfter: q.mk, MaxKeys: max32})
+		r, err := st.ListObjects(ctx, s.ob, storage.ListObjectsOptions{Prefix: c06Str(q.pfx), Delimiter: c06OptStr(q.delim), StartAfter: q.mk, MaxKeys: max32})
 		if err != nil {
 			return c06ErrKind(err)
 		}
@@ -481,7 +481,7 @@ func (s *c06State) runQuery(id int, q c06Query, pb storage.BucketName) string {
 		for i, o := range r.Objects {
 			keys[i] = o.Key.String()
 		}
-		s.page(id, 0, r.IsTruncated, nil, -1, hexAll(keys), nil, false, r.CommonPrefixes)
+		s.page(id, 0, r.IsTruncated, nil, -1, c06HexAll(keys), nil, false, r.CommonPrefixes)
 		return "done"
 
 	case "v1", "v2":
@@ -515,7 +515,7 @@ func (s *c06State) runQuery(id int, q c06Query, pb storage.BucketName) string {
 				}
 			}
 			code, body := s.e.get("/"+s.ob.String(), v)
-			var x xListBucket
+			var x c06XListBucket
 			if err := c06ParseXML(code, body, &x); err != nil {
 				return c06ErrKind(err)
 			}
@@ -531,7 +531,7 @@ func (s *c06State) runQuery(id int, q c06Query, pb storage.BucketName) string {
 			if q.op == "v2" {
 				nk = x.NextContinuationToken
 			}
-			s.page(id, i, x.IsTruncated, nk, -1, hexAll(keys), nil, false, cps)
+			s.page(id, i, x.IsTruncated, nk, -1, c06HexAll(keys), nil, false, cps)
 			if !x.IsTruncated {
 				return "done"
 			}
@@ -554,7 +554,7 @@ func (s *c06State) runQuery(id int, q c06Query, pb storage.BucketName) string {
 			if i == limit {
 				return "overflow"
 			}
-			r, err := st.ListObjectVersions(ctx, s.vb, storage.ListObjectVersionsOptions{Prefix: sp(q.pfx), Delimiter: optStr(q.delim), KeyMarker: km, VersionIDMarker: vm, MaxKeys: max32})
+			r, err := st.ListObjectVersions(ctx, s.vb, storage.ListObjectVersionsOptions{Prefix: c06Str(q.pfx), Delimiter: c06OptStr(q.delim), KeyMarker: km, VersionIDMarker: vm, MaxKeys: max32})
 			if err != nil {
 				return c06ErrKind(err)
 			}
@@ -562,7 +562,7 @@ func (s *c06State) runQuery(id int, q c06Query, pb storage.BucketName) string {
 			for j, v := range r.Versions {
 				items[j] = s.vItem(v.Key.String(), v.VersionID)
 			}
-			s.page(id, i, r.IsTruncated, r.NextKeyMarker, subOfPtr(s.vsub, r.NextVersionIDMarker), items, nil, false, r.CommonPrefixes)
+			s.page(id, i, r.IsTruncated, r.NextKeyMarker, c06SubOfPtr(s.vsub, r.NextVersionIDMarker), items, nil, false, r.CommonPrefixes)
 			if !r.IsTruncated {
 				return "done"
 			}
@@ -599,7 +599,7 @@ func (s *c06State) runQuery(id int, q c06Query, pb storage.BucketName) string {
 				v.Set("version-id-marker", *vm)
 			}
 			code, body := s.e.get("/"+s.vb.String(), v)
-			var x xListVersions
+			var x c06XListVersions
 			if err := c06ParseXML(code, body, &x); err != nil {
 				return c06ErrKind(err)
 			}
@@ -614,7 +614,7 @@ func (s *c06State) runQuery(id int, q c06Query, pb storage.BucketName) string {
 			for j, p := range x.CommonPrefixes {
 				cps[j] = p.Prefix
 			}
-			s.page(id, i, x.IsTruncated, x.NextKeyMarker, subOfPtr(s.vsub, x.NextVersionIDMarker), ks, ds, true, cps)
+			s.page(id, i, x.IsTruncated, x.NextKeyMarker, c06SubOfPtr(s.vsub, x.NextVersionIDMarker), ks, ds, true, cps)
 			if !x.IsTruncated {
 				return "done"
 			}
@@ -637,7 +637,7 @@ func (s *c06State) runQuery(id int, q c06Query, pb storage.BucketName) string {
 			if i == limit {
 				return "overflow"
 			}
-			r, err := st.ListMultipartUploads(ctx, s.ub, storage.ListMultipartUploadsOptions{Prefix: sp(q.pfx), Delimiter: optStr(q.delim), KeyMarker: km, UploadIdMarker: um, MaxUploads: max32})
+			r, err := st.ListMultipartUploads(ctx, s.ub, storage.ListMultipartUploadsOptions{Prefix: c06Str(q.pfx), Delimiter: c06OptStr(q.delim), KeyMarker: km, UploadIdMarker: um, MaxUploads: max32})
 			if err != nil {
 				return c06ErrKind(err)
 			}
@@ -646,7 +646,7 @@ func (s *c06State) runQuery(id int, q c06Query, pb storage.BucketName) string {
 				items[j] = s.uItem(u.Key.String(), u.UploadId.String())
 			}
 			nk, nu := r.NextKeyMarker, r.NextUploadIdMarker
-			s.page(id, i, r.IsTruncated, &nk, subOfPtr(s.usub, &nu), items, nil, false, r.CommonPrefixes)
+			s.page(id, i, r.IsTruncated, &nk, c06SubOfPtr(s.usub, &nu), items, nil, false, r.CommonPrefixes)
 			if !r.IsTruncated {
 				return "done"
 			}
@@ -680,7 +680,7 @@ func (s *c06State) runQuery(id int, q c06Query, pb storage.BucketName) string {
 				v.Set("upload-id-marker", *um)
 			}
 			code, body := s.e.get("/"+s.ub.String(), v)
-			var x xListUploads
+			var x c06XListUploads
 			if err := c06ParseXML(code, body, &x); err != nil {
 				return c06ErrKind(err)
 			}
@@ -692,7 +692,7 @@ func (s *c06State) runQuery(id int, q c06Query, pb storage.BucketName) string {
 			for j, p := range x.CommonPrefixes {
 				cps[j] = p.Prefix
 			}
-			s.page(id, i, x.IsTruncated, x.NextKeyMarker, subOfPtr(s.usub, x.NextUploadIDMarker), items, nil, false, cps)
+			s.page(id, i, x.IsTruncated, x.NextKeyMarker, c06SubOfPtr(s.usub, x.NextUploadIDMarker), items, nil, false, cps)
 			if !x.IsTruncated {
 				return "done"
 			}
@@ -706,7 +706,7 @@ func (s *c06State) runQuery(id int, q c06Query, pb storage.BucketName) string {
 		limit := len(s.parts) + 2
 		var pm *string
 		if q.msub >= 0 {
-			pm = sp(strconv.Itoa(q.msub))
+			pm = c06Str(strconv.Itoa(q.msub))
 		}
 		for i := 0; ; i++ {
 			if i == limit {
@@ -738,7 +738,7 @@ func (s *c06State) runQuery(id int, q c06Query, pb storage.BucketName) string {
 		limit := len(s.parts) + 2
 		var pm *string
 		if q.msub >= 0 {
-			pm = sp(strconv.Itoa(q.msub))
+			pm = c06Str(strconv.Itoa(q.msub))
 		}
 		for i := 0; ; i++ {
 			if i == limit {
@@ -751,7 +751,7 @@ func (s *c06State) runQuery(id int, q c06Query, pb storage.BucketName) string {
 				v.Set("part-number-marker", *pm)
 			}
 			code, body := s.e.get("/"+pb.String()+"/"+s.pkey, v)
-			var x xListParts
+			var x c06XListParts
 			if err := c06ParseXML(code, body, &x); err != nil {
 				return c06ErrKind(err)
 			}
